@@ -174,8 +174,10 @@ func (r *recallWantlist) clearSentAt(c cid.Cid) {
 	delete(r.sentAt, c)
 }
 
-// refresh moves wants from the sent list back to the pending list.
-// If a want has been sent for longer than the interval, it is moved back to the pending list.
+// refresh schedules sent wants for re-sending by adding them to the pending list.
+// If a want has been sent for longer than the interval, it is added back to the pending list.
+// The want stays in the sent list: the peer still has it on its wantlist, so a
+// cancel that arrives before the re-send must still result in a CANCEL message.
 // Returns the number of wants that were refreshed.
 func (r *recallWantlist) refresh(now time.Time, interval time.Duration) int {
 	var refreshed int
@@ -183,7 +185,6 @@ func (r *recallWantlist) refresh(now time.Time, interval time.Duration) int {
 		wantCid := want.Cid
 		sentAt, ok := r.sentAt[wantCid]
 		if ok && now.Sub(sentAt) >= interval {
-			r.sent.Remove(wantCid)
 			r.pending.Add(wantCid, want.Priority, want.WantType)
 			refreshed++
 		}
